@@ -304,6 +304,29 @@ pub fn gen_chain_tree(r: &mut Rng, len: u32) -> E {
     }
     if r.chance(1, 3) { E::Binary { left: bx(e), right: bx(E::Variable { name: "x".into() }), operator: O::Plus } } else { e }
 }
+/// VERY deep regular chains (thousands of levels: 4097, 8193, 10000 …) for every tree function: else-if and then ladders, `not` / `-` chains, right-nested
+/// products, nested arrays / calls / three-argument if_then calls, ending in a leaf that matters (a non-Boolean literal, an undefined variable, an unknown
+/// function, an impure call).  A "give up below level N" guard in a validator, the optimizer or the interpreter shows only here.
+pub fn gen_vchain_tree(r: &mut Rng, depth: u32, shape: u64) -> E {
+    let leaf = match r.below(6) { 0 => lit(V::Number(5.0)), 1 => E::Variable { name: "nope_undefined".into() }, 2 => E::Call { name: "nofn".into(), params: vec![] },
+        3 => E::Call { name: "mk".into(), params: vec![lit(V::Number(1.0))] }, 4 => E::Binary { left: bx(lit(V::Number(1.0))), right: bx(lit(V::Number(1.0))), operator: O::Plus }, _ => lit(V::Boolean(true)) };
+    let cond_lit = r.chance(1, 2);
+    let cond = |want: bool| -> E { if cond_lit { lit(V::Boolean(want)) } else { E::Variable { name: (if want { "T" } else { "F" }).to_string() } } };
+    let mut e = leaf;
+    for i in 0..depth {
+        e = match shape % 8 {
+            0 => E::Ternary { left: bx(cond(false)), middle: bx(lit(V::Boolean(true))), right: bx(e), operator: O::TernaryCondition },
+            1 => E::Ternary { left: bx(cond(true)), middle: bx(e), right: bx(lit(V::Boolean(false))), operator: O::TernaryCondition },
+            2 => E::Unary { right: bx(e), operator: O::Not },
+            3 => E::Unary { right: bx(e), operator: O::Minus },
+            4 => E::Binary { left: bx(lit(V::Number(if i % 2 == 0 { 1.0 } else { 2.0 }))), right: bx(e), operator: if i % 2 == 0 { O::Multiply } else { O::Plus } },
+            5 => E::Array { expressions: vec![e] },
+            6 => E::Call { name: "first".into(), params: vec![e] },
+            _ => E::Call { name: "if_then".into(), params: vec![cond(true), e, lit(V::Number(0.0))] },
+        };
+    }
+    e
+}
 pub fn gen_deep_tree(r: &mut Rng, depth: u32) -> E {
     if depth == 0 { return gen_tree(r, 0, true); }
     let inner = gen_deep_tree(r, depth - 1);
